@@ -318,3 +318,78 @@ def canaries_ord(programs):
         Q.note = "CANARY (oracle uses a wrong discriminant) of " + P.pid
         out.append(Q)
     return out
+
+
+# ---------------------------------------------------------------------------------
+# C05
+HASH_TYS = ["u8", "u16", "bool", "crate::m::K", "u32"]
+HASH_METHODS = ["crate::m::hash_a", "crate::m::hash_b"]
+
+
+def hash_field(name, a, form, i, rot):
+    sem = {"ignore": a == "i", "method": HASH_METHODS[i % 2] if a == "m" else None}
+    ty = "u8" if a == "m" else HASH_TYS[(i + rot) % len(HASH_TYS)]
+    sp = spell_field("Hash", sem, form)
+    return Field(name, ty, attrs=[sp] if sp else [], hash=sem)
+
+
+def c05(tier, seed):
+    rnd = random.Random(seed)
+    c = Counter()
+    out = []
+    form = 0
+    maxn = 3 if tier == "quick" else 4
+    for shape in ("named", "tuple"):
+        for n in range(0, maxn + 1):
+            for assign in itertools.product("nim", repeat=n):
+                form += 1
+                names = HOSTILE if form % 5 == 0 else NAMES
+                fields = [hash_field(names[i] if shape == "named" else None, a, form + i, i, form) for i, a in enumerate(assign)]
+                out.append(Program(c.pid(), "struct", "S", [Variant(None, shape, fields)], ["Hash"], focus={"Hash"},
+                                   note="struct %s hash=%s" % (shape, "".join(assign) or "-")))
+    out.append(Program(c.pid(), "struct", "S", [Variant(None, "unit", [])], ["Hash"], focus={"Hash"}, note="unit struct"))
+    kinds = {"u": ("unit", 0), "t1": ("tuple", 1), "t2": ("tuple", 2), "n2": ("named", 2), "n3": ("named", 3), "t3": ("tuple", 3)}
+    combos = [(a,) for a in ("u", "t1", "t2", "n2")] + list(itertools.product(("u", "t1", "t2", "n2"), repeat=2))
+    combos += [("u", "t1", "n2"), ("t2", "t2", "u"), ("n2", "n2", "n2"), ("u", "u", "u"), ("t1", "t1", "t1"), ("n2", "u", "t2"),
+               ("t1", "n2", "t2"), ("t2", "u", "n2"), ("n2", "t1", "u"), ("u", "t2", "t1"), ("t1", "u", "u"), ("n3", "t3", "u"),
+               ("t1", "t1", "t1", "t1"), ("u", "u", "t1", "u", "n2")]
+    if tier != "quick":
+        combos += [tuple(rnd.choice(list(kinds)) for _ in range(rnd.choice((3, 4, 5, 6)))) for _ in range(100)]
+    for ci, combo in enumerate(combos):
+        form += 1
+        variants, pos = [], 0
+        for vi, k in enumerate(combo):
+            kind, m = kinds[k]
+            fs = []
+            for j in range(m):
+                pos += 1
+                a = "nim"[(pos + ci) % 3] if (pos + ci) % 2 == 0 else "n"
+                if tier != "quick":
+                    a = rnd.choice("nnim")
+                # same field type across variants at the same position: only the tag tells them apart
+                fs.append(hash_field(NAMES[j] if kind == "named" else None, a, form + pos, j, ci))
+            variants.append(Variant("V%d" % vi, kind, fs))
+        out.append(Program(c.pid(), "enum", "E", variants, ["Hash"], focus={"Hash"}, note="enum %s" % "/".join(combo)))
+    return out
+
+
+def canaries_hash(programs):
+    out = []
+    picks = [p for p in programs if p.kind == "struct" and any(not f.s("hash", "ignore") for f in p.variants[0].fields)]
+    for P in picks[4:5] + picks[-1:]:
+        Q = P.clone(); Q.pid = P.pid + "_canary"; Q.canary_of = P.pid
+        for f in Q.variants[0].fields:
+            if not f.s("hash", "ignore"):
+                f.sem["hash"] = dict(f.sem["hash"], ignore=True)
+                break
+        Q.note = "CANARY (oracle drops a hashed field) of " + P.pid
+        out.append(Q)
+    es = [p for p in programs if p.kind == "enum" and len(p.variants) >= 2 and all(len(v.fields) == len(p.variants[0].fields) for v in p.variants)]
+    for P in es[1:2]:
+        Q = P.clone(); Q.pid = P.pid + "_canary"; Q.canary_of = P.pid
+        Q.variants[0], Q.variants[1] = Q.variants[1], Q.variants[0]
+        Q.variants[0].idx, Q.variants[1].idx = 0, 1
+        Q.tags["canary_engines"] = ["verus"]     # the Kani contract is tag-agnostic by design
+        Q.note = "CANARY (oracle swaps the tags of two variants) of " + P.pid
+        out.append(Q)
+    return out
